@@ -116,6 +116,8 @@ class ExprMixin:
         rd = n['referencedDecl']
         kind = rd['kind']
         name = rd.get('name')
+        if kind == 'VarDecl' and name == 'nullopt' and rd['id'] not in self.ix.by_id:
+            return '0'
         if kind in ('VarDecl', 'ParmVarDecl', 'BindingDecl'):
             loc = self.cur['locals'].get(rd['id'])
             if loc is not None:
@@ -307,6 +309,11 @@ class ExprMixin:
             return f'(({self.ctype(t)}){{{inner}}})'
         if fam == 'rec':
             c = self.ctype(t)
+            if c not in self.record_fields:
+                if any(i.get('kind') not in ('ImplicitValueInitExpr', 'InitListExpr') or
+                       any(j.get('kind') != 'ImplicitValueInitExpr' for j in i.get('inner', [])) for i in items):
+                    raise LoweringError(f'init list with values for system record {c}')
+                return f'(({c}){{0}})'
             fields = self.record_fields[c]
             if len(items) > len(fields):
                 raise LoweringError(f'init list longer than fields of {c}')
